@@ -273,6 +273,20 @@ M('c02-guard-flipped', ['C02'], Y23 + 'f1040.py', "FloatField('34', lambda s, i,
 M('c02-reordered-summands', ['C02'], Y23 + 'f1040.py', "FloatField('14', lambda s, i, v: v['12'] + v['13']),", "FloatField('14', lambda s, i, v: float(v['13'] + v['12'])),", None, 'summands reordered and wrapped in float()', 'silent')
 M('c02-guarded-floor', ['C02'], Y23 + 'f1040.py', "FloatField('22', lambda s, i, v: max(0.0, v['18'] - v['21'])),", "FloatField('22', lambda s, i, v: v['18'] - v['21'] if v['18'] > v['21'] else 0.0),", None, 'floor written as a guarded subtraction', 'silent')
 
+# ------------------------------------------------------------------ rules added after round 3 of the seeded changes
+M('k10-unimplemented-stops-prompting', ['C05', 'C06', 'C13'], S, "            self._unimplemented_fields.append(fni.field_name)", "            self._unimplemented_fields.append(fni.field_name)\n            self._refused_input = True", 'K10', 'an unimplemented line stops all further questions: typed values are reported missing, file values are used (seed C05-E)')
+M('k21e-enum-definition-wrapped', ['C12'], FI, "        super().__init__(name, value_fn, enum)\n", "        def by_name(s, i, v):\n            answer = value_fn(s, i, v)\n            return enum[answer] if isinstance(answer, str) and answer in enum.__members__ else answer\n        super().__init__(name, by_name, enum)\n", 'K21e', 'EnumField wraps the definition and converts option names to members before the type check (seed C12-F)')
+M('k11g-optionxform', ['C11', 'C05', 'C13'], 'habutax/inputs.py', "            with open(input_config) as config_file:\n", "            self.config.optionxform = str\n            with open(input_config) as config_file:\n", 'K11g', 'case-preserving keys on the file-backed parser: Box_1 = ... is no longer found (seed C11-F)')
+M('k22e-integer-via-float', ['C14'], FI, "class IntegerField(BasicTypedField):\n    def __init__(self, name, value_fn):\n        self._empty_value = 0\n        super().__init__(name, value_fn, int)\n", "class IntegerField(BasicTypedField):\n    def __init__(self, name, value_fn):\n        self._empty_value = 0\n        super().__init__(name, value_fn, int)\n\n    def from_string(self, string):\n        return int(float(string))\n", 'K22e', 'whole-number lines read back through a float (seed C14-F)')
+M('k1b-blocked-lines-only-with-missing-inputs', ['C01'], CLI, "        if len(unmet_field_dependencies) > 0:\n            print(\"\\nThe following fields were needed but unable to be produced (likely due to unsupplied inputs or unimplemented behavior above):\")\n            for dependency, dependents in unmet_field_dependencies.items():\n                print(f'{dependency} (needed by: {\", \".join(dependents)})')\n", "            if len(unmet_field_dependencies) > 0:\n                print(\"\\nThe following fields were needed but unable to be produced (likely due to unsupplied inputs or unimplemented behavior above):\")\n                for dependency, dependents in unmet_field_dependencies.items():\n                    print(f'{dependency} (needed by: {\", \".join(dependents)})')\n", 'K1b', 'the blocked lines are reported only when an input is missing as well (seed C01-F)')
+M('l2b-shared-generator', ['C03', 'C05'], Y22 + 'f1040_sb.py', "            FloatField('2', lambda s, i, v: sum([v[f'1_amount_{line}'] for line in range(NUM_FIELDS)])),", "            FloatField('2', lambda s, i, v: sum([v[amount] for amount in int_amounts])),", 'L2b', 'line 2 consumes a generator created once in the constructor (seed C03-F)', more=[(Y22 + 'f1040_sb.py', "        optional_fields = [\n", "        int_amounts = (f'1_amount_{line}' for line in range(NUM_FIELDS))\n        optional_fields = [\n")])
+M('l2b-shared-list', ['C03', 'C05'], Y22 + 'f1040_sb.py', "            FloatField('2', lambda s, i, v: sum([v[f'1_amount_{line}'] for line in range(NUM_FIELDS)])),", "            FloatField('2', lambda s, i, v: sum([v[amount] for amount in int_amounts])),", None, 'the names are kept in a list created once (re-iterable)', 'silent', more=[(Y22 + 'f1040_sb.py', "        optional_fields = [\n", "        int_amounts = [f'1_amount_{line}' for line in range(NUM_FIELDS)]\n        optional_fields = [\n")])
+M('k23f-line-names-remembered', ['C18', 'C19'], 'habutax/pdf_filler.py', "        fdf_map = {}\n        for pdf_field in form.pdf_fields():\n            field_name = pdf_field.field_name\n            if \".\" not in field_name:\n                field_name = f'{form.name()}.{field_name}'\n", "        if not hasattr(self, '_names'):\n            self._names = {}\n        if form.form_name not in self._names:\n            self._names[form.form_name] = [f.field_name if '.' in f.field_name else f'{form.name()}.{f.field_name}' for f in form.pdf_fields()]\n        fdf_map = {}\n        for pdf_field, field_name in zip(form.pdf_fields(), self._names[form.form_name]):\n", 'K23f', 'line names remembered per form class: the second copy of a form is filled from the first copy\'s lines (seed C18-F)')
+M('k17b-eager-validation', ['C13', 'C11'], 'habutax/inputs.py', "    def update_input_spec(self, input_specs):\n", "    def update_input_spec(self, input_specs):\n        for key, i in input_specs.items():\n            if self.provides(i) and not i.valid(self.config.get(i.section(), i.base_name())):\n                raise InvalidInput(key, self.config.get(i.section(), i.base_name()))\n", 'K17b', 'every present value is validated when a form is registered: an unread malformed input fails the run (seed C13-E)')
+M('r199-nc-schedule-filed-as-federal', ['C19'], Y22 + 'fnc_d_400_sa.py', "    jurisdiction = Jurisdiction.NC\n", "    jurisdiction = Jurisdiction.US\n", 'R19.9', 'NC Schedule A declares the federal jurisdiction and is filed inside the federal block (seed C19-E)')
+M('r93-limit-gate-nested', ['C09'], Y23 + 'f1040_sb.py', "            if i['1040.number_1099-int'] > NUM_FIELDS or i['1040.number_1099-div'] > NUM_FIELDS:\n                self.not_implemented()\n", "                if i['1040.number_1099-int'] > NUM_FIELDS or i['1040.number_1099-div'] > NUM_FIELDS:\n                    self.not_implemented()\n", 'R9.3', 'the too-many-payers gate only applies when the listed payers exceed 1,500 (seed C09-E)')
+M('r93-limit-gate-other-line', ['C09'], Y22 + 'f8889.py', "or v['2'] > v['13'] else v['13']),", "or v['2'] > v['8'] else v['13']),", 'R9.3', 'excess HSA contributions measured against line 8 instead of line 13 (seed C09-F)')
+
 # ------------------------------------------------------------------ C19: truncation in a value function, text-ordered sequence numbers
 M('r197-value-fn-truncates', ['C19'], Y23 + 'fnc_d_400.py', "TextPDFField('y_d400wf_lname2_PG2', 'your_last_name', max_length=10),", "TextPDFField('y_d400wf_lname2_PG2', 'your_last_name', max_length=10, value_fn=lambda s, v, f: v[:10]),", 'R19.7', 'a text box cuts the name to its length limit instead of refusing (seed C19-C)')
 M('k23b-sequence-as-text', ['C19'], 'habutax/pdf_filler.py', "key=lambda f: (f.jurisdiction, f.sequence_no)", "key=lambda f: (f.jurisdiction, str(f.sequence_no))", 'K23b', 'forms ordered by the sequence number as text: 71 sorts before 8 (seed C19-D)')
